@@ -168,15 +168,25 @@ func c19Exec(c c19Case, st *lab.Stats) *lab.Fail {
 				cw.Add(1)
 				go func(b int) {
 					defer cw.Done()
+					// even binders keep one connection and bind as fast as they can, odd ones reconnect every time
+					var cl *lab.Client
+					defer func() {
+						if cl != nil {
+							cl.Abort()
+						}
+					}()
 					for k := 0; ; k++ {
 						select {
 						case <-stop:
 							return
 						default:
 						}
-						cl, err := lab.Dial(h.addr())
-						if err != nil {
-							return
+						if cl == nil {
+							var err error
+							if cl, err = lab.Dial(h.addr()); err != nil {
+								cl = nil
+								return
+							}
 						}
 						dn, pw := "cn=nobody", "x"
 						if len(c.Users) > 0 {
@@ -186,17 +196,20 @@ func c19Exec(c c19Case, st *lab.Stats) *lab.Fail {
 								pw = u.Pws[0]
 							}
 						}
-						_ = cl.Send(ReqSpec{Req: wire.Req{Kind: "bind", MsgID: 3, Version: 3, DN: []byte(dn), Password: []byte(pw)}}.Bytes())
-						_, _ = cl.Next(5 * time.Second)
-						cl.Abort()
+						_ = cl.Send(ReqSpec{Req: wire.Req{Kind: "bind", MsgID: int64(3 + k%1000), Version: 3, DN: []byte(dn), Password: []byte(pw)}}.Bytes())
+						if _, err := cl.Next(5 * time.Second); err != nil || b%2 == 1 {
+							cl.Abort()
+							cl = nil
+						}
 					}
 				}(b)
 			}
+			time.Sleep(300 * time.Microsecond) // the binders are at work
 			for k := 0; k < c.Churn; k++ {
 				h.D.SetUsers(old...)
-				time.Sleep(time.Duration(k%3) * 100 * time.Microsecond)
+				time.Sleep(time.Duration(k%3) * 50 * time.Microsecond)
 				h.D.SetUsers(final...)
-				time.Sleep(time.Duration((k+1)%3) * 100 * time.Microsecond)
+				time.Sleep(time.Duration((k+1)%3) * 50 * time.Microsecond)
 			}
 			close(stop)
 			cw.Wait()
@@ -324,15 +337,15 @@ func genC19(viaDefaults bool) func(t *rapid.T) c19Case {
 			}
 			c.Binds = append(c.Binds, b)
 		}
-		if !viaDefaults && rapid.IntRange(0, 3).Draw(t, "churn") == 0 {
-			c.Churn = rapid.IntRange(1, 8).Draw(t, "nchurn")
-			c.ChurnBinders = rapid.SampledFrom([]int{1, 2, 4, 8}).Draw(t, "binders")
+		if !viaDefaults && rapid.IntRange(0, 2).Draw(t, "churn") == 0 {
+			c.Churn = rapid.SampledFrom([]int{1, 2, 4, 8, 16, 32}).Draw(t, "nchurn")
+			c.ChurnBinders = rapid.SampledFrom([]int{2, 4, 8, 8}).Draw(t, "binders")
 		}
 		return c
 	}
 }
 
-const c19Rule = "user sets of 0..6 entries over a DN pool with prefixes / extensions / case variants / duplicates, password attribute missing, [], [\"\"], one or several values, both anonymous-bind settings (SetAllowAnonymousBind; part defaults: WithDefaults at Start), bind DNs and passwords from the pool (including passwords with trailing NUL bytes and 63..71-byte passwords that differ only after byte 64), variants of user DNs, empty and random; one case in four first calls SetUsers 2..16 times, alternating an older variant of the user set with the final one, while 1..8 clients bind in a loop (not judged), and judges its binds only when nothing is in flight any more; over plain / TLS / StartTLS with go-ldap SimpleBind(AllowEmptyPassword) and the raw independent client, the 1..8 binds of a case running at the same time on their own connections; oracle = success iff (pw empty and anonymous allowed) or exists user with DN == bind DN and first password value == pw, else invalidCredentials; non-trivial = bind DN is a prefix/extension/case variant of a user DN, or password equals a non-first value, or is empty; distinct by hash of (users, anon, dn, pw)"
+const c19Rule = "user sets of 0..6 entries over a DN pool with prefixes / extensions / case variants / duplicates, password attribute missing, [], [\"\"], one or several values, both anonymous-bind settings (SetAllowAnonymousBind; part defaults: WithDefaults at Start), bind DNs and passwords from the pool (including passwords with trailing NUL bytes and 63..71-byte passwords that differ only after byte 64), variants of user DNs, empty and random; one case in three first calls SetUsers 2..64 times, alternating an older variant of the user set with the final one, while 2..8 clients bind in a loop (not judged), and judges its binds only when nothing is in flight any more; over plain / TLS / StartTLS with go-ldap SimpleBind(AllowEmptyPassword) and the raw independent client, the 1..8 binds of a case running at the same time on their own connections; oracle = success iff (pw empty and anonymous allowed) or exists user with DN == bind DN and first password value == pw, else invalidCredentials; non-trivial = bind DN is a prefix/extension/case variant of a user DN, or password equals a non-first value, or is empty; distinct by hash of (users, anon, dn, pw)"
 
 func TestC19(t *testing.T) {
 	lab.Prop[c19Case]{ID: "C19", Part: "set", Rule: "rapid: " + c19Rule, Gen: genC19(false), Exec: c19Exec}.Run(t)
